@@ -14,76 +14,158 @@ Model: `VlsModel/Model/Tracker.lean` (`addBlock`, `removeBlock`, `blockChunk`; o
 a rejection; nothing is claimed about it.  Only property theorems live here; helper lemmas are in
 `VlsModel/Lemmas/Tracker.lean`.
 
-Result in one line: atomicity holds for the whole tracker state for compact (filter/block proof)
-delivery and for the view (headers, tip, height, listeners) for every delivery; for a *streamed*
-block the rejection leaves the monitors' per-block decode state behind (`ldec`), which makes the
-next streamed block abort the signer (finding F4b, `C13_atomic_streamed_false`).
+Result in one line: a refused request returns the tracker it was given when no stream is in
+progress, and for a *streamed* request (block chunks, then a refused `add_block`/`remove_block`)
+the tracker and its monitors are back in the state they had before the first chunk, so the next
+streamed block is accepted (`C13_atomic_streamed`, full strength since fix b36e377; before that
+fix the monitors kept their per-block decode state and the next streamed block aborted the signer
+— finding F4b, then refuted here by a witness).  The only trace a refused stream leaves is the
+monitors' `saw_block` flag, set by `on_block_start` and true for good after the first block
+anyway.
 -/
 namespace VlsModel.Props.C13
 open VlsModel VlsModel.Monitor VlsModel.Tracker VlsModel.Gen.Chain
 
 /-! ## 1. Atomicity of rejected requests -/
 
+/-- Shape of every refusal: the tracker is returned as it was, except that a stream in progress is
+aborted (tracker decode state and the monitors' per-block decode states dropped). -/
+theorem C13_reject_add (t : Tracker) (h : Header) (p : Proof) (k : ErrKind)
+    (hr : (addBlock t h p).2 = .err k) : (addBlock t h p).1 = t.aborted := by
+  rcases addBlock_cases t h p with c | ⟨k', hk, _⟩ | ⟨ls, hk, _⟩
+  · rw [c] at hr; cases hr
+  · rw [hk]
+  · rw [hk] at hr; cases hr
+
+theorem C13_reject_remove (t : Tracker) (p : Proof) (v : Headers) (k : ErrKind)
+    (hr : (removeBlock t p v).2 = .err k) : (removeBlock t p v).1 = t.aborted := by
+  rcases removeBlock_cases t p v with c | ⟨k', hk⟩ | ⟨ls, hk, _⟩
+  · rw [c] at hr; cases hr
+  · rw [hk]
+  · rw [hk] at hr; cases hr
+
 /-- A rejected compact `add_block` leaves the whole tracker state unchanged. -/
 theorem C13_atomic_add (t : Tracker) (h : Header) (p : Proof) (k : ErrKind)
     (hr : (addBlock t h p).2 = .err k) (hp : p.ptype ≠ .external) : (addBlock t h p).1 = t := by
   rcases addBlock_cases t h p with c | ⟨k', hk, hd⟩ | ⟨ls, hk, _⟩
   · rw [c] at hr; cases hr
-  · rw [hk]; exact undecode_of_none (hd hp)
+  · rw [hk]; exact aborted_of_none (hd hp)
   · rw [hk] at hr; cases hr
 
 /-- A rejected `add_block` of any delivery type leaves headers, tip, height, listeners unchanged. -/
 theorem C13_atomic_add_view (t : Tracker) (h : Header) (p : Proof) (k : ErrKind)
     (hr : (addBlock t h p).2 = .err k) : (addBlock t h p).1.view = t.view := by
-  rcases addBlock_cases t h p with c | ⟨k', hk, _⟩ | ⟨ls, hk, _⟩
-  · rw [c] at hr; cases hr
-  · rw [hk]; rfl
-  · rw [hk] at hr; cases hr
+  rw [C13_reject_add t h p k hr]; rfl
 
-/-- A rejected compact `remove_block` leaves the whole tracker state unchanged. -/
+/-- A rejected `remove_block` while no stream is in progress leaves the whole tracker state
+unchanged.  (With a stream in progress even a compact removal refused by the window checks aborts
+the stream: `C13_reject_remove`.) -/
 theorem C13_atomic_remove (t : Tracker) (p : Proof) (v : Headers) (k : ErrKind)
-    (hr : (removeBlock t p v).2 = .err k) (hp : p.ptype ≠ .external) : (removeBlock t p v).1 = t := by
-  rcases removeBlock_cases t p v with c | ⟨k', _, _, hd⟩ | ⟨ls, hk, _⟩
-  · rw [c] at hr; cases hr
-  · exact hd hp
-  · rw [hk] at hr; cases hr
+    (hr : (removeBlock t p v).2 = .err k) (hd : t.decoding = none) : (removeBlock t p v).1 = t := by
+  rw [C13_reject_remove t p v k hr]; exact aborted_of_none hd
 
 /-- A rejected `remove_block` of any delivery type leaves headers, tip, height, listeners unchanged. -/
 theorem C13_atomic_remove_view (t : Tracker) (p : Proof) (v : Headers) (k : ErrKind)
     (hr : (removeBlock t p v).2 = .err k) : (removeBlock t p v).1.view = t.view := by
-  rcases removeBlock_cases t p v with c | ⟨k', _, h1 | h1, _⟩ | ⟨ls, hk, _⟩
-  · rw [c] at hr; cases hr
-  · rw [h1]
-  · rw [h1]; rfl
-  · rw [hk] at hr; cases hr
+  rw [C13_reject_remove t p v k hr]; rfl
 
-/-- Positive counterpart of F4b: a rejected streamed `add_block` changes at most the tracker's own
-decode state (it is taken); everything else, including the monitors' flag `ldec`, stays as it was
-*after the block chunks* (not as it was before them, see `C13_atomic_streamed_false`). -/
-theorem C13_atomic_streamed_partial (t : Tracker) (h : Header) (p : Proof) (k : ErrKind)
-    (hr : (addBlock t h p).2 = .err k) : (addBlock t h p).1 = { t with decoding := none } := by
-  rcases addBlock_cases t h p with c | ⟨k', hk, _⟩ | ⟨ls, hk, _⟩
-  · rw [c] at hr; cases hr
-  · rw [hk]; rfl
-  · rw [hk] at hr; cases hr
+/-! ## 2. Streamed requests: a refused stream restores the pre-stream state
 
-/-- The same for `remove_block` (a rejection by the window checks does not even take it). -/
-theorem C13_atomic_streamed_remove_partial (t : Tracker) (p : Proof) (v : Headers) (k : ErrKind)
-    (hr : (removeBlock t p v).2 = .err k) :
-    (removeBlock t p v).1 = t ∨ (removeBlock t p v).1 = { t with decoding := none } := by
-  rcases removeBlock_cases t p v with c | ⟨k', _, h1, _⟩ | ⟨ls, hk, _⟩
-  · rw [c] at hr; cases hr
-  · exact h1
-  · rw [hk] at hr; cases hr
+`Clean t` (no stream in progress ⇒ the monitors hold no per-block decode state) is an invariant of
+every non-panicking operation; it holds for a new or restored tracker (`decode_state: None`,
+monitors created with `decode_state: None`). -/
 
-/-! ### Finding F4b: a rejected streamed block is not atomic
+theorem C13_clean_chunk (t : Tracker) (d a : Nat) (_ : Clean t)
+    (hr : (blockChunk t d a).2 = .ok) : Clean (blockChunk t d a).1 := by
+  rw [(blockChunk_ok hr).2.2]
+  intro hdec; simp at hdec
 
-Wanted (false for the model and the code):
-  `(blockChunk t d d).2 = .ok → (addBlock (blockChunk t d d).1 h p).2 = .err k →
-     (addBlock (blockChunk t d d).1 h p).1 = t`
-The tracker's decode state is taken by `maybe_finish_decoding_block`, but the monitors keep their
-`BlockDecodeState`; the next streamed block hits "saw more than one on_block_start". -/
+theorem C13_clean_add (t : Tracker) (h : Header) (p : Proof) (hc : Clean t)
+    (hr : (addBlock t h p).2 ≠ .panic) : Clean (addBlock t h p).1 := by
+  rcases addBlock_cases t h p with c | ⟨k, hk, _⟩ | ⟨ls, hk, hd, _⟩
+  · exact absurd c hr
+  · rw [hk]; intro _
+    simp only [Tracker.aborted]
+    cases hdec : t.decoding with
+    | none => simpa using hc hdec
+    | some _ => simp
+  · rw [hk]; intro _
+    simp only [Tracker.added]
+    by_cases he : p.ptype = .external
+    · simp [he]
+    · have : (p.ptype == PType.external) = false := by simpa using he
+      simp only [this]
+      exact hc (hd he)
 
+theorem C13_clean_remove (t : Tracker) (p : Proof) (v : Headers) (hc : Clean t)
+    (hr : (removeBlock t p v).2 ≠ .panic) : Clean (removeBlock t p v).1 := by
+  rcases removeBlock_cases t p v with c | ⟨k, hk⟩ | ⟨ls, hk, hd, _⟩
+  · exact absurd c hr
+  · rw [hk]; intro _
+    simp only [Tracker.aborted]
+    cases hdec : t.decoding with
+    | none => simpa using hc hdec
+    | some _ => simp
+  · rw [hk]; intro _
+    simp only [Tracker.removed]
+    by_cases he : p.ptype = .external
+    · simp [he]
+    · have : (p.ptype == PType.external) = false := by simpa using he
+      simp only [this]
+      exact hc (hd he)
+
+/-- **C13, streamed atomicity (full strength, fix b36e377).**  Block chunks followed by a refused
+`add_block`: the tracker — tip, height, remembered headers, watches, monitors, the tracker's and the
+monitors' decode states — is exactly the tracker before the first chunk, up to the monitors'
+`saw_block` flag which the chunk (not the refused request) sets. -/
+theorem C13_atomic_streamed (t0 : Tracker) (d a : Nat) (h : Header) (p : Proof) (k : ErrKind)
+    (hc : Clean t0) (hch : (blockChunk t0 d a).2 = .ok)
+    (hr : (addBlock (blockChunk t0 d a).1 h p).2 = .err k) :
+    (addBlock (blockChunk t0 d a).1 h p).1 = { t0 with listeners := sawAll t0.listeners } := by
+  rw [C13_reject_add _ h p k hr]
+  obtain ⟨hnone, _, heq⟩ := blockChunk_ok hch
+  have hl := hc hnone
+  rw [heq]
+  cases t0
+  simp_all [Tracker.aborted]
+
+/-- the same for a refused streamed `remove_block` -/
+theorem C13_atomic_streamed_remove (t0 : Tracker) (d a : Nat) (p : Proof) (v : Headers) (k : ErrKind)
+    (hc : Clean t0) (hch : (blockChunk t0 d a).2 = .ok)
+    (hr : (removeBlock (blockChunk t0 d a).1 p v).2 = .err k) :
+    (removeBlock (blockChunk t0 d a).1 p v).1 = { t0 with listeners := sawAll t0.listeners } := by
+  rw [C13_reject_remove _ p v k hr]
+  obtain ⟨hnone, _, heq⟩ := blockChunk_ok hch
+  have hl := hc hnone
+  rw [heq]
+  cases t0
+  simp_all [Tracker.aborted]
+
+/-- … hence literally the pre-stream tracker once every monitor has seen a block (always the case
+after the first connected block). -/
+theorem C13_atomic_streamed_eq (t0 : Tracker) (d a : Nat) (h : Header) (p : Proof) (k : ErrKind)
+    (hc : Clean t0) (hsaw : ∀ e ∈ t0.listeners, e.2.st.sawBlock = true)
+    (hch : (blockChunk t0 d a).2 = .ok)
+    (hr : (addBlock (blockChunk t0 d a).1 h p).2 = .err k) :
+    (addBlock (blockChunk t0 d a).1 h p).1 = t0 := by
+  rw [C13_atomic_streamed t0 d a h p k hc hch hr, sawAll_id _ hsaw]
+
+/-- **The next streamed block is accepted** (F4b is gone): after a refused streamed request the
+chunk of the next block does not panic — it behaves exactly as on the pre-stream tracker. -/
+theorem C13_streamed_retry (t0 : Tracker) (d a d' a' : Nat) (h : Header) (p : Proof) (k : ErrKind)
+    (hc : Clean t0) (hch : (blockChunk t0 d a).2 = .ok)
+    (hr : (addBlock (blockChunk t0 d a).1 h p).2 = .err k) :
+    blockChunk (addBlock (blockChunk t0 d a).1 h p).1 d' a'
+      = blockChunk { t0 with listeners := sawAll t0.listeners } d' a' ∧
+    (blockChunk (addBlock (blockChunk t0 d a).1 h p).1 d' d').2 = .ok := by
+  rw [C13_atomic_streamed t0 d a h p k hc hch hr]
+  refine ⟨rfl, ?_⟩
+  obtain ⟨hnone, _, _⟩ := blockChunk_ok hch
+  have hl := hc hnone
+  unfold blockChunk
+  simp [hnone, hl]
+
+/-- the former F4b witness: one listener, a streamed orphan block -/
 def f4bListener : Listener :=
   { st := State.init 5 77 0 [], slot := { txidWatches := [77], watches := [], seen := [] } }
 
@@ -97,17 +179,13 @@ def f4bHeader : Header := ⟨11, 8, 1, 0, true⟩
 def f4bProof : Proof :=
   { ptype := .external, verifyOk := true, attested := [1, 2], fh := 4, fhConsistent := true, txs := [] }
 
-theorem C13_atomic_streamed_false :
-    let t0 := f4bTracker
-    let t1 := (blockChunk t0 11 11).1
+/-- On the former counter-example the refused streamed block now leaves `ldec = false` and the next
+streamed block starts normally. -/
+example :
+    let t1 := (blockChunk f4bTracker 11 11).1
     let t2 := (addBlock t1 f4bHeader f4bProof).1
-    (blockChunk t0 11 11).2 = .ok ∧
-    (addBlock t1 f4bHeader f4bProof).2 = .err .orphan ∧
-    t2.view = t1.view ∧ t2.decoding = t0.decoding ∧  -- (the chunk itself only set the monitors' `saw_block`)
-    t0.ldec = false ∧ t2.ldec = true ∧            -- the state before the chunk is not restored
-    (blockChunk t0 12 12).2 = .ok ∧               -- a correct next streamed block: fine before,
-    (blockChunk t2 12 12).2 = .panic := by        -- aborts the signer after the rejection
-  decide
+    (addBlock t1 f4bHeader f4bProof).2 = .err .orphan ∧ t1.ldec = true ∧ t2.ldec = false ∧
+    t2.decoding = none ∧ (blockChunk t2 12 12).2 = .ok := by decide
 
 /-! ## 3. The tip moves only by validated blocks -/
 
@@ -152,7 +230,7 @@ theorem C13_advance_remove (t : Tracker) (p : Proof) (v : Headers)
     (removeBlock t p v).1.tip = v ∧
     (removeBlock t p v).1.height = t.height - 1 ∧
     (removeBlock t p v).1.headers = t.headers.drop 1 := by
-  rcases removeBlock_cases t p v with c | ⟨k', hk, _⟩ | ⟨ls, hk, _, _, hne, hv, hw, hdp⟩
+  rcases removeBlock_cases t p v with c | ⟨k', hk⟩ | ⟨ls, hk, _, _, hne, hv, hw, hdp⟩
   · rw [c] at hr; cases hr
   · rw [hk] at hr; cases hr
   · obtain ⟨hc, hpf⟩ := validateBlock_none hv
@@ -237,22 +315,24 @@ theorem C13_retry_add_remove (t : Tracker) (h : Header) (p p' : Proof) (v' : Hea
   rw [C13_atomic_add t h p k hr hp]
 
 theorem C13_retry_remove_add (t : Tracker) (h' : Header) (p p' : Proof) (v : Headers) (k : ErrKind)
-    (hr : (removeBlock t p v).2 = .err k) (hp : p.ptype ≠ .external) :
+    (hr : (removeBlock t p v).2 = .err k) (hd : t.decoding = none) :
     addBlock (removeBlock t p v).1 h' p' = addBlock t h' p' := by
-  rw [C13_atomic_remove t p v k hr hp]
+  rw [C13_atomic_remove t p v k hr hd]
 
 theorem C13_retry_remove_remove (t : Tracker) (p p' : Proof) (v v' : Headers) (k : ErrKind)
-    (hr : (removeBlock t p v).2 = .err k) (hp : p.ptype ≠ .external) :
+    (hr : (removeBlock t p v).2 = .err k) (hd : t.decoding = none) :
     removeBlock (removeBlock t p v).1 p' v' = removeBlock t p' v' := by
-  rw [C13_atomic_remove t p v k hr hp]
+  rw [C13_atomic_remove t p v k hr hd]
 
 /-- General form: any observation `f` of the tracker (in particular the result of any later
-sequence of requests) is the same after a rejected compact request as before it. -/
+sequence of requests) is the same after a rejected request as before it, when no stream is in
+progress (for a refused stream see `C13_atomic_streamed`, `C13_streamed_retry`). -/
 theorem C13_retry {α : Type} (f : Tracker → α) (t : Tracker) (h : Header) (p : Proof) (v : Headers)
-    (k : ErrKind) (hp : p.ptype ≠ .external) :
+    (k : ErrKind) (hd : t.decoding = none) :
     ((addBlock t h p).2 = .err k → f (addBlock t h p).1 = f t) ∧
     ((removeBlock t p v).2 = .err k → f (removeBlock t p v).1 = f t) :=
-  ⟨fun hr => by rw [C13_atomic_add t h p k hr hp], fun hr => by rw [C13_atomic_remove t p v k hr hp]⟩
+  ⟨fun hr => by rw [C13_reject_add t h p k hr, aborted_of_none hd],
+   fun hr => by rw [C13_atomic_remove t p v k hr hd]⟩
 
 /-- Positive instance: a correct request that would have succeeded before the rejection still
 succeeds after it, with the same resulting tracker. -/
@@ -264,23 +344,19 @@ theorem C13_retry_succeeds (t : Tracker) (h h' : Header) (p p' : Proof) (k : Err
   rw [C13_retry_add_add t h h' p p' k hr hp]; exact ⟨hok, rfl⟩
 
 theorem C13_retry_succeeds_remove (t : Tracker) (p p' : Proof) (v v' : Headers) (k : ErrKind)
-    (hr : (removeBlock t p v).2 = .err k) (hp : p.ptype ≠ .external)
+    (hr : (removeBlock t p v).2 = .err k) (hp : t.decoding = none)
     (hok : (removeBlock t p' v').2 = .ok) :
     (removeBlock (removeBlock t p v).1 p' v').2 = .ok ∧
     (removeBlock (removeBlock t p v).1 p' v').1 = (removeBlock t p' v').1 := by
   rw [C13_retry_remove_remove t p p' v v' k hr hp]; exact ⟨hok, rfl⟩
 
-/-- For a streamed (external) delivery the full retry statement is false
-(`C13_atomic_streamed_false`: the follow-up `blockChunk` panics).  What does hold: every field of
-the tracker except the tracker's own decode state is as before the rejected `add_block` (i.e. as
-after the block chunks), and the decode state is cleared. -/
-theorem C13_retry_streamed_partial (t : Tracker) (h : Header) (p : Proof) (k : ErrKind)
-    (hr : (addBlock t h p).2 = .err k) :
-    (addBlock t h p).1.view = t.view ∧ (addBlock t h p).1.trusted = t.trusted ∧
-    (addBlock t h p).1.network = t.network ∧ (addBlock t h p).1.allowDeep = t.allowDeep ∧
-    (addBlock t h p).1.ldec = t.ldec ∧ (addBlock t h p).1.decoding = none := by
-  rw [C13_atomic_streamed_partial t h p k hr]
-  exact ⟨rfl, rfl, rfl, rfl, rfl, rfl⟩
+/-- After a refused streamed block, any later request sequence behaves as on the pre-stream tracker
+(with the monitors' `saw_block` set). -/
+theorem C13_retry_streamed {α : Type} (f : Tracker → α) (t0 : Tracker) (d a : Nat) (h : Header)
+    (p : Proof) (k : ErrKind) (hc : Clean t0) (hch : (blockChunk t0 d a).2 = .ok)
+    (hr : (addBlock (blockChunk t0 d a).1 h p).2 = .err k) :
+    f (addBlock (blockChunk t0 d a).1 h p).1 = f { t0 with listeners := sawAll t0.listeners } := by
+  rw [C13_atomic_streamed t0 d a h p k hc hch hr]
 
 /-! ## 6. Generated constants and the header window -/
 
